@@ -39,7 +39,7 @@ import (
 //	            signing step with only used_ott grown
 //	reject:pre  not 2xx, no table changed                                            reject:pre   (refused before UseToken)
 //	reject:post not 2xx, only used_ott grew by one                                   reject:post  (refused by the provisioner, after UseToken)
-//	leak:<…>    anything else: a refused request changed a certificate / revocation table, or an accepted one changed the wrong ones
+//	leak:<…>    a refused token answered with anything but 400 / 401 / 403 / 501, or anything else: a refused request changed a certificate / revocation table, or an accepted one changed the wrong ones
 var httpTables = []string{"x509_certs", "ssh_certs", "revoked_x509_certs", "revoked_ssh_certs", "used_ott"}
 
 var opRoute = map[string]string{"sign": "/1.0/sign", "sshsign": "/1.0/ssh/sign", "sshrenew": "/1.0/ssh/renew",
@@ -192,6 +192,10 @@ func (r *httpRunner) emit(k *Case) {
 		// authorized, recorded, and then refused by Sign* / Renew* / Rekey* / Revoke for a reason of
 		// its own (certificate lifetime, request not matching the token …): nothing issued
 		impl = "ok"
+	case res.Status != 400 && res.Status != 401 && res.Status != 403 && res.Status != 501:
+		// "every other token is answered with an authorization error": a refused token must not
+		// surface as a server error or anything else
+		impl = fmt.Sprintf("leak:refused status=%d delta=%s", res.Status, ds)
 	case ds == "":
 		impl = "reject:pre"
 	case ds == "used_ott+1":
@@ -202,6 +206,7 @@ func (r *httpRunner) emit(k *Case) {
 	js, _ := json.Marshal(k)
 	r.out.Case(a.line+" http=1 case=x"+hex.EncodeToString(js), impl)
 	r.hist[impl]++
+	r.hist[fmt.Sprintf("status=%d", res.Status)]++
 }
 
 // minters whose accepted tokens lead to a request the default templates sign without further ado
